@@ -148,6 +148,8 @@ pub fn reset() {
         HSLOT = [(0, NOSLOT); NH];
         HACTIVE = [true; NH];
         CHILD_DEPTH = 0;
+        ALLOC_TRACK = false;
+        ALLOCS = 0;
     }
     #[cfg(futures_buffered_verif)]
     {
@@ -434,3 +436,89 @@ pub use stubs::{clone as stub_clone, drop as stub_drop, wake as stub_wake, wake_
 
 #[allow(unused)]
 fn _keep(_: ManuallyDrop<u8>) {}
+
+// --------------------------------------------------------- allocation counting
+//
+// C18: calls to the global allocator made while control is inside the crate.
+// Under Kani `alloc::alloc::{alloc, realloc_nonnull}` are stubbed by counting
+// versions; natively the replayer installs a counting `#[global_allocator]`.
+// The reference model of `waker_list` reports its (one) block allocation per
+// list through `verif::probe_counts`, as the real list does.
+
+pub static mut ALLOC_TRACK: bool = false;
+pub static mut ALLOCS: usize = 0;
+
+pub fn alloc_track(on: bool) {
+    unsafe { ALLOC_TRACK = on }
+}
+
+/// allocator calls observed while tracking was on (+ waker-list blocks)
+pub fn allocs() -> usize {
+    let lists = {
+        #[cfg(futures_buffered_verif)]
+        {
+            futures_buffered::verif::probe_counts().0
+        }
+        #[cfg(not(futures_buffered_verif))]
+        {
+            0
+        }
+    };
+    unsafe { ALLOCS + lists }
+}
+
+pub fn note_alloc() {
+    unsafe {
+        if ALLOC_TRACK {
+            ALLOCS += 1;
+        }
+    }
+}
+
+#[cfg(kani)]
+pub mod alloc_stubs {
+    use core::alloc::Layout;
+    use core::ptr::NonNull;
+
+    /// counting replacement of `alloc::alloc::alloc` (memory comes zeroed: a
+    /// refinement of "uninitialised" that no harness observes)
+    pub unsafe fn alloc(layout: Layout) -> *mut u8 {
+        super::note_alloc();
+        unsafe { std::alloc::alloc_zeroed(layout) }
+    }
+
+    /// counting replacement of `alloc::alloc::realloc_nonnull`
+    pub unsafe fn realloc_nonnull(ptr: NonNull<u8>, layout: Layout, new_size: usize) -> *mut u8 {
+        super::note_alloc();
+        unsafe {
+            let new = std::alloc::alloc_zeroed(Layout::from_size_align_unchecked(new_size, layout.align()));
+            let n = if layout.size() < new_size { layout.size() } else { new_size };
+            core::ptr::copy_nonoverlapping(ptr.as_ptr(), new, n);
+            std::alloc::dealloc(ptr.as_ptr(), layout);
+            new
+        }
+    }
+}
+
+#[cfg(not(kani))]
+pub mod counting_alloc {
+    use std::alloc::{GlobalAlloc, Layout, System};
+    pub struct Counting;
+    unsafe impl GlobalAlloc for Counting {
+        unsafe fn alloc(&self, l: Layout) -> *mut u8 {
+            super::note_alloc();
+            unsafe { System.alloc(l) }
+        }
+        unsafe fn dealloc(&self, p: *mut u8, l: Layout) {
+            unsafe { System.dealloc(p, l) }
+        }
+        unsafe fn alloc_zeroed(&self, l: Layout) -> *mut u8 {
+            super::note_alloc();
+            unsafe { System.alloc_zeroed(l) }
+        }
+        unsafe fn realloc(&self, p: *mut u8, l: Layout, n: usize) -> *mut u8 {
+            super::note_alloc();
+            unsafe { System.realloc(p, l, n) }
+        }
+    }
+}
